@@ -159,6 +159,66 @@ func HarnessC18Listen() {
 	vrt.Observe("got", got)
 }
 
+// HarnessC18TwoListeners: two concurrent requests share the reply topic (one Pub/Sub subscription each, every
+// notification is delivered to both, in either order). Each caller reads exactly the reply of its own command
+// with its own result, then cancels; both listeners terminate.
+func HarnessC18TwoListeners() {
+	var finished [2]int
+	sub := &notifSubscriber{}
+	ids := [2]string{"A", "B"}
+	var replies [2]<-chan Reply[c18Result]
+	var cancels [2]context.CancelFunc
+	for i := 0; i < 2; i++ {
+		b := c18Backend(sub, &c18Pub{}, &finished[i], false)
+		ctx, cancel := context.WithCancel(context.Background())
+		r, err := b.ListenForNotifications(ctx, BackendListenForNotificationsParams{OperationID: OperationID(ids[i])})
+		vrt.Assert(err == nil, "listening")
+		replies[i], cancels[i] = r, cancel
+	}
+	first := vrt.Int("first", 0, 1) // whose reply is published first
+	order := [2]int{first, 1 - first}
+	failed := [2]bool{vrt.Bool("A.failed"), vrt.Bool("B.failed")}
+	for i := 0; i < 2; i++ {
+		i := i
+		go func() { // the Pub/Sub side of subscription i: every notification, one after the other
+			vrt.MayBlock()
+			for _, k := range order {
+				n := c18Notification(ids[k], 10*(k+1), failed[k])
+				sub.chs[i] <- n
+				<-n.Acked()
+			}
+		}()
+	}
+	var got [2]int
+	done := make(chan struct{}, 2)
+	for i := 0; i < 2; i++ {
+		i := i
+		go func() {
+			vrt.MustFinish()
+			r := <-replies[i]
+			vrt.Assert(r.NotificationMessage != nil && r.NotificationMessage.Metadata.Get(OperationIDMetadataKey) == ids[i], "a caller only ever reads replies produced for its own command")
+			vrt.Assert(r.HandlerResult.N == 10*(i+1), "carrying its own handler's result")
+			vrt.Assert((r.Error != nil) == failed[i], "and its own handler's error")
+			got[i]++
+			cancels[i]()
+			for r := range replies[i] {
+				if r.NotificationMessage != nil {
+					vrt.Assert(r.NotificationMessage.Metadata.Get(OperationIDMetadataKey) == ids[i], "a caller only ever reads replies produced for its own command")
+					got[i]++
+				}
+			}
+			done <- struct{}{}
+		}()
+	}
+	<-done
+	<-done
+	vrt.AtQuiescence(func() {
+		vrt.Assert(got[0] == 1 && got[1] == 1, "each caller got exactly the one reply of its command")
+		vrt.Assert(finished[0] == 1 && finished[1] == 1, "OnListenForReplyFinished runs exactly once per request")
+		vrt.Assert(vrt.Live("requestreply.PubSubBackend") == 0, "both listener goroutines terminate")
+	})
+}
+
 // HarnessC18Processed: OnCommandProcessed publishes the reply before the command is settled and
 // returns nil / the handler error as AckCommandErrors says; a failed reply publish is an error (Nack).
 func HarnessC18Processed() {
